@@ -9,24 +9,14 @@ CLASSES = ("MolGraph", "StereoMolGraph", "CondensedReactionGraph", "StereoConden
 
 
 def config(cname, mname, tier, pid="C09"):
-    """loop bounds of the bounded mode and callee contracts (modular verification) per method"""
-    cfg = {"iter_bound": 2}
+    """loops are verified with the side-car invariants of vf/contracts/loop_invariants.py (unbounded); a loop without
+    an invariant would fall back to bounded unrolling (kind=bounded) with this bound"""
+    from ..contracts.loop_invariants import LOOPS
+
     if pid == "C19" and mname == "remove_atom":
-        # C19 only needs the rejected paths, which end before any loop: explore the remaining paths with empty containers
+        # C19 only needs the rejected paths, which end before any loop: the remaining paths are explored with empty containers
         return {"iter_bound": 0}
-    if mname == "remove_atom":
-        if cname == "StereoMolGraph":
-            cfg["iter_bound"] = 1 if tier == "quick" else 2
-        if cname == "StereoCondensedReactionGraph":
-            cfg["iter_bound"] = 1
-            cfg["chg_one_slot"] = True
-            callee = G.MUTATORS["remove_atom"]()
-
-            def handler(interp, obj, args, kwargs):
-                return verify.apply_contract(interp, obj, "StereoMolGraph", "remove_atom", callee, {"a": args[0]})
-
-            cfg["callee_contracts"] = {("graphs/smg.py", "StereoMolGraph.remove_atom"): handler}
-    return cfg
+    return {"iter_bound": 1, "loop_contracts": LOOPS}
 
 
 def ob_mutator(rep, world, cname, mname, pid, timeout, tier="quick"):
@@ -43,8 +33,6 @@ def tasks(pid, timeout, queries=True, tier="quick"):
     out = []
     for mname, c in G.MUTATORS.items():
         for cname in c.classes:
-            if tier == "quick" and mname == "remove_atom" and cname == "StereoCondensedReactionGraph" and pid == "C09":
-                continue  # ~7000 bounded obligations (5 min): thorough tier only; the quick tier keeps the E3 lockstep check
             out.append(("ob_mutator", (cname, mname, pid, timeout, tier)))
     if queries:
         for qname, c in G.QUERIES.items():
